@@ -50,6 +50,13 @@ func open(ctx context.Context, ds datastore.Datastore) (*Store, error) {
 	if err != nil {
 		return nil, fmt.Errorf("continuing deletion: %w", err)
 	}
+	// DeleteAll writes its tombstone through the namespaced datastore (i.e. at
+	// /certstore/tombstone), so an interrupted DeleteAll must be looked for and
+	// resumed there as well; the root-level check above is kept for tombstones
+	// planted at the root of the datastore.
+	if err := maybeContinueDelete(ctx, cs.ds); err != nil {
+		return nil, fmt.Errorf("continuing deletion: %w", err)
+	}
 
 	latestInstance, err := cs.readInstanceNumber(ctx, certStoreLatestKey)
 	if errors.Is(err, datastore.ErrNotFound) {
